@@ -280,7 +280,7 @@ def k_ncon(ctx, spec):
         ctx.check(r.n == r0.n and tuple(r.get_signature()) == tuple(r0.get_signature()), 'ncon:charge/signature-order-independent')
         lr = r.get_legs(native=True)
         U2 = [_u(x, y) for x, y in zip(lr, U)]
-        ctx.eq(reassemble(r, U2), reassemble(r0, U2), f'ncon(swap={swaps}): order {o} == order {o0}')
+        ctx.eq(reassemble(r, U2), reassemble(r0, U2), KNOWN_LOOP if loop_cross else f'ncon(swap={swaps}): order {o} == order {o0}')
     # default order (None) and einsum with the same network
     r = yastn.ncon(tens, inds, swap=swaps)
     U2 = [_u(x, y) for x, y in zip(r.get_legs(native=True), U)]
